@@ -212,6 +212,31 @@ def run(ctx):
                   "the buffer is cleared only after a clone of the same vector was handed to the consumer as Full(..)", f.where(), "; ".join("%s %s" % (w, q.show()) for w, q in bad_clear[:2]))
         ctx.check(not bad_order, "R15.3", "%s|push-after-clear" % f.name,
                   "the incoming access is stored after the hand-over/clear, so it is not wiped", f.where(), "; ".join(q.show() for q in bad_order[:2]))
+        # between two hand-overs the buffer only grows: nothing but push / clear / take touches the vector mutably (a dedup,
+        # truncate, retain, pop, drain, sort+dedup .. - also inside the argument of a log macro - loses records that were
+        # neither delivered nor counted as dropped)
+        READ_ONLY = ("::len", "::is_empty", "::capacity", "::clone", "::iter", "::as_slice", "Deref::deref", "::first", "::last", "::get", "::contains",
+                     "::fmt", "::eq", "::ne", "::borrow", "::as_ref", "::to_vec", "::into", "::from",
+                     # permutations keep every record (the consumer does not depend on the order inside a buffer)
+                     "::sort", "::sort_unstable", "::reverse", "::swap", "DerefMut::deref_mut", "::reserve", "::shrink_to_fit")
+        shrinks = []
+        for p in paths:
+            pushes = [e for e in p.events if is_push(e)]
+            if len(pushes) != 1:
+                continue
+            vec = pushes[0].args[0]
+            for e in p.events:
+                if e.log or is_push(e) or is_clear(e) or is_accept(e) or not e.args:
+                    continue
+                if not any(same_value(a, vec) or mentions(a, lambda s_: same_value(s_, vec)) for a in e.args if isinstance(a, tuple)):
+                    continue
+                g = e.generic
+                if g.startswith(("std::mem::take", "std::mem::replace")) or any(g.endswith(s_) for s_ in READ_ONLY):
+                    continue
+                shrinks.append("%s @ %s" % (g, e.where()))
+        ctx.check(not shrinks, "R15.3", "%s|buffer-only-grows-until-handed-over" % f.name,
+                  "on the paths of the buffer's add nothing but push, the hand-over (clone / take) and the clear operates on the buffered vector", f.where(),
+                  "; ".join(sorted(set(shrinks))[:3]))
 
     # ---- R15.7 the buffer lock is never lent out inside a critical section ---------------------------------
     # snapshot, hand-over, clear and push are one critical section of the buffer lock: a temporary release
